@@ -14,6 +14,14 @@ class B09Error(Exception):
     error, jump to a missing label, FOR/NEXT mismatch ...)."""
 
 
+class B09RuntimeError(Exception):
+    """ERROR n executed (the procedure signals a run-time error)."""
+
+    def __init__(self, code):
+        super().__init__("ERROR %s" % code)
+        self.code = code
+
+
 class _Uninit:
     def __repr__(self):
         return "UNINIT"
@@ -491,7 +499,7 @@ class B09Interp:
                 v = self.eval(env, a)
                 refs.append(Ref(None, None, temp=v))
                 vals.append(v)
-        self.runs.append((name, vals))
+        self.runs.append((name, vals, list(st.args)))
         if contract is not None:
             fn = contract[1]
             if len(st.args) < n_in + (1 if fn else 0):
@@ -664,7 +672,9 @@ class B09Interp:
                 env.on_error = st.target
                 self.events.append(("onerror", st.target))
                 pc += 1
-            elif k in ("tron", "troff", "os9", "error"):
+            elif k == "error":
+                raise B09RuntimeError(self.num(env, st.exp))
+            elif k in ("tron", "troff", "os9"):
                 pc += 1
             else:
                 raise B09Error("statement %s cannot be executed by the reference interpreter" % k)
